@@ -5,7 +5,7 @@ import GV.Model.GoMap
 import GV.Proofs.MapKeyInj
 
 namespace GV.Proofs.GoMapRefine
-open GV.MapKey GV.GoMap GV.Spec.MapKey GV.Proofs.MapKeyInj
+open GV.MapKey GV.GoMap GV.Spec.MapKey GV.Proofs.MapKeyStr GV.Proofs.MapKeyInj
 
 /-! ### a JS Map seen through its live entries -/
 
@@ -188,22 +188,22 @@ theorem distinct_eraseL (l : L) (jk : JKey) (hd : Distinct l) : Distinct (eraseL
 /-! ### the refinement relation -/
 
 section
-variable (reg : Nat → Str) (shape : Nat → KType) (τ : KType)
+variable (fs : Int → Str) (shape : Nat → KType) (τ : KType)
 
-/-- a key the partial injectivity theorem covers: a value of the map's key type without the recorded NaN shapes -/
-def OKKey (k : KVal) : Prop := wt shape τ k = true ∧ good k = true
+/-- a value of the map's key type -/
+def OKKey (k : KVal) : Prop := wt shape τ k = true
 
 /-- every live entry is stored under the key that `keyFor` gave its Go key in some earlier state -/
 def Tied (l : L) (s : KSt) : Prop :=
-  ∀ x ∈ l, OKKey shape τ x.2.1 ∧ ∃ s0, Inv s0 ∧ (keyFor reg x.2.1 s0).1 = x.1 ∧ Le (keyFor reg x.2.1 s0).2 s
+  ∀ x ∈ l, OKKey shape τ x.2.1 ∧ ∃ s0, Inv s0 ∧ (keyFor fs x.2.1 s0).1 = x.1 ∧ Le (keyFor fs x.2.1 s0).2 s
 
 def Rel (jm : JMap) (s : KSt) (am : AMap) : Prop :=
-  am = abs jm.live ∧ Inv s ∧ Tied reg shape τ jm.live s ∧ Distinct jm.live
+  am = abs jm.live ∧ Inv s ∧ Tied fs shape τ jm.live s ∧ Distinct jm.live
 
 /-- model state vs specification state -/
 def RelO : MSt → GoMapS → Prop
   | ⟨none, s⟩, none => Inv s
-  | ⟨some jm, s⟩, some am => Rel reg shape τ jm s am
+  | ⟨some jm, s⟩, some am => Rel fs shape τ jm s am
   | _, _ => False
 
 def OpOK : Op → Prop
@@ -214,27 +214,27 @@ def OpOK : Op → Prop
   | .literal es => ∀ e ∈ es, OKKey shape τ e.1
   | _ => True
 
-variable {reg shape τ}
+variable {fs shape τ}
 
-theorem tied_agree (hreg : RegOK reg) {l : L} {s : KSt} (ht : Tied reg shape τ l s) (hi : Inv s) {k : KVal}
-    (hk : OKKey shape τ k) : Agree l (keyFor reg k s).1 k := by
+theorem tied_agree (hfs : ToStringOK fs) {l : L} {s : KSt} (ht : Tied fs shape τ l s) (hi : Inv s) {k : KVal}
+    (hk : OKKey shape τ k) : Agree l (keyFor fs k s).1 k := by
   intro x hx
   obtain ⟨ok, s0, i0, e, le⟩ := ht x hx
   rw [← e]
-  exact key_inj reg hreg shape τ x.2.1 k s0 s ok.1 hk.1 ok.2 hk.2 i0 hi le
+  exact key_inj hfs shape τ x.2.1 k s0 s ok hk i0 hi le
 
-theorem tied_mono {l : L} {s s' : KSt} (ht : Tied reg shape τ l s) (h : Le s s') : Tied reg shape τ l s' := by
+theorem tied_mono {l : L} {s s' : KSt} (ht : Tied fs shape τ l s) (h : Le s s') : Tied fs shape τ l s' := by
   intro x hx
   obtain ⟨ok, s0, i0, e, le⟩ := ht x hx
   exact ⟨ok, s0, i0, e, Le.trans le h⟩
 
-theorem rel_store (hreg : RegOK reg) {jm : JMap} {s : KSt} {am : AMap} (h : Rel reg shape τ jm s am) {k : KVal} (v : Int)
+theorem rel_store (hfs : ToStringOK fs) {jm : JMap} {s : KSt} {am : AMap} (h : Rel fs shape τ jm s am) {k : KVal} (v : Int)
     (hk : OKKey shape τ k) :
-    Rel reg shape τ (jm.set (keyFor reg k s).1 (k, v)) (keyFor reg k s).2 (am.insert k v) := by
+    Rel fs shape τ (jm.set (keyFor fs k s).1 (k, v)) (keyFor fs k s).2 (am.insert k v) := by
   obtain ⟨ha, hi, ht, hd⟩ := h
-  have m := keyFor_mono reg k s hi
+  have m := keyFor_mono fs k s hi
   refine ⟨?_, m.1, ?_, ?_⟩
-  · rw [live_set, set_agree _ _ _ _ (tied_agree hreg ht hi hk), ha]
+  · rw [live_set, set_agree _ _ _ _ (tied_agree hfs ht hi hk), ha]
   · rw [live_set]
     intro x hx
     rcases mem_setL _ _ _ _ hx with hx | hx
@@ -242,40 +242,40 @@ theorem rel_store (hreg : RegOK reg) {jm : JMap} {s : KSt} {am : AMap} (h : Rel 
     · rw [hx]; exact ⟨hk, s, hi, rfl, Le.refl _⟩
   · rw [live_set]; exact distinct_setL _ _ _ hd
 
-theorem rel_delete (hreg : RegOK reg) {jm : JMap} {s : KSt} {am : AMap} (h : Rel reg shape τ jm s am) {k : KVal}
+theorem rel_delete (hfs : ToStringOK fs) {jm : JMap} {s : KSt} {am : AMap} (h : Rel fs shape τ jm s am) {k : KVal}
     (hk : OKKey shape τ k) :
-    Rel reg shape τ (jm.delete (keyFor reg k s).1) (keyFor reg k s).2 (am.erase k) := by
+    Rel fs shape τ (jm.delete (keyFor fs k s).1) (keyFor fs k s).2 (am.erase k) := by
   obtain ⟨ha, hi, ht, hd⟩ := h
-  have m := keyFor_mono reg k s hi
+  have m := keyFor_mono fs k s hi
   refine ⟨?_, m.1, ?_, ?_⟩
-  · rw [live_delete, erase_agree _ _ _ (tied_agree hreg ht hi hk) hd, ha]
+  · rw [live_delete, erase_agree _ _ _ (tied_agree hfs ht hi hk) hd, ha]
   · rw [live_delete]
     intro x hx
     exact tied_mono ht m.2 x (mem_eraseL _ _ _ hx)
   · rw [live_delete]; exact distinct_eraseL _ _ hd
 
-theorem rel_lookup (hreg : RegOK reg) {jm : JMap} {s : KSt} {am : AMap} (h : Rel reg shape τ jm s am) {k : KVal}
+theorem rel_lookup (hfs : ToStringOK fs) {jm : JMap} {s : KSt} {am : AMap} (h : Rel fs shape τ jm s am) {k : KVal}
     (hk : OKKey shape τ k) :
-    jm.get (keyFor reg k s).1 = am.lookup k ∧ Rel reg shape τ jm (keyFor reg k s).2 am := by
+    jm.get (keyFor fs k s).1 = am.lookup k ∧ Rel fs shape τ jm (keyFor fs k s).2 am := by
   obtain ⟨ha, hi, ht, hd⟩ := h
-  have m := keyFor_mono reg k s hi
-  exact ⟨by rw [live_get, lookup_agree _ _ _ (tied_agree hreg ht hi hk), ha], ha, m.1, tied_mono ht m.2, hd⟩
+  have m := keyFor_mono fs k s hi
+  exact ⟨by rw [live_get, lookup_agree _ _ _ (tied_agree hfs ht hi hk), ha], ha, m.1, tied_mono ht m.2, hd⟩
 
-theorem rel_makeMap (hreg : RegOK reg) : ∀ (es : List Entry) (jm : JMap) (s : KSt) (am : AMap),
-    Rel reg shape τ jm s am → (∀ e ∈ es, OKKey shape τ e.1) →
-    Rel reg shape τ (makeMap reg es jm s).1 (makeMap reg es jm s).2 (es.foldl (fun a e => a.insert e.1 e.2) am)
+theorem rel_makeMap (hfs : ToStringOK fs) : ∀ (es : List Entry) (jm : JMap) (s : KSt) (am : AMap),
+    Rel fs shape τ jm s am → (∀ e ∈ es, OKKey shape τ e.1) →
+    Rel fs shape τ (makeMap fs es jm s).1 (makeMap fs es jm s).2 (es.foldl (fun a e => a.insert e.1 e.2) am)
   | [], _, _, _, h, _ => h
   | e :: es, jm, s, am, h, hk => by
     simp only [makeMap, List.foldl]
-    exact rel_makeMap hreg es _ _ _ (rel_store hreg h e.2 (hk e (by simp))) (fun e' he' => hk e' (List.mem_cons_of_mem _ he'))
+    exact rel_makeMap hfs es _ _ _ (rel_store hfs h e.2 (hk e (by simp))) (fun e' he' => hk e' (List.mem_cons_of_mem _ he'))
 
-theorem rel_empty {s : KSt} (hi : Inv s) : Rel reg shape τ [] s [] :=
+theorem rel_empty {s : KSt} (hi : Inv s) : Rel fs shape τ [] s [] :=
   ⟨rfl, hi, fun _ hx => by simp [JMap.live] at hx, by simp [JMap.live, Distinct]⟩
 
 /-- one operation: same output, related successor states -/
-theorem step_refines (hreg : RegOK reg) (ms : MSt) (gm : GoMapS) (h : RelO reg shape τ ms gm) (op : Op)
+theorem step_refines (hfs : ToStringOK fs) (ms : MSt) (gm : GoMapS) (h : RelO fs shape τ ms gm) (op : Op)
     (hop : OpOK shape τ op) :
-    (step reg ms op).2 = (stepS gm op).2 ∧ RelO reg shape τ (step reg ms op).1 (stepS gm op).1 := by
+    (step fs ms op).2 = (stepS gm op).2 ∧ RelO fs shape τ (step fs ms op).1 (stepS gm op).1 := by
   obtain ⟨m, s⟩ := ms
   cases m with
   | none =>
@@ -285,31 +285,31 @@ theorem step_refines (hreg : RegOK reg) (ms : MSt) (gm : GoMapS) (h : RelO reg s
       have hi : Inv s := h
       cases op with
       | store k v => exact ⟨rfl, hi⟩
-      | delete k => exact ⟨rfl, (keyFor_mono reg k s hi).1⟩
-      | index k => exact ⟨rfl, (keyFor_mono reg k s hi).1⟩
-      | commaOk k => exact ⟨rfl, (keyFor_mono reg k s hi).1⟩
+      | delete k => exact ⟨rfl, (keyFor_mono fs k s hi).1⟩
+      | index k => exact ⟨rfl, (keyFor_mono fs k s hi).1⟩
+      | commaOk k => exact ⟨rfl, (keyFor_mono fs k s hi).1⟩
       | len => exact ⟨rfl, hi⟩
       | make => exact ⟨rfl, rel_empty hi⟩
       | setNil => exact ⟨rfl, hi⟩
       | literal es =>
         refine ⟨rfl, ?_⟩
-        exact rel_makeMap hreg es [] s [] (rel_empty hi) hop
+        exact rel_makeMap hfs es [] s [] (rel_empty hi) hop
       | unhashable => exact ⟨rfl, hi⟩
   | some jm =>
     cases gm with
     | none => simp [RelO] at h
     | some am =>
-      have hr : Rel reg shape τ jm s am := h
+      have hr : Rel fs shape τ jm s am := h
       cases op with
-      | store k v => exact ⟨rfl, rel_store hreg hr v hop⟩
-      | delete k => exact ⟨rfl, rel_delete hreg hr hop⟩
+      | store k v => exact ⟨rfl, rel_store hfs hr v hop⟩
+      | delete k => exact ⟨rfl, rel_delete hfs hr hop⟩
       | index k =>
-        have := rel_lookup hreg hr hop
+        have := rel_lookup hfs hr hop
         refine ⟨?_, this.2⟩
         simp only [step, stepS, Option.bind, this.1, outOfEntry]
         cases am.lookup k <;> rfl
       | commaOk k =>
-        have := rel_lookup hreg hr hop
+        have := rel_lookup hfs hr hop
         refine ⟨?_, this.2⟩
         simp only [step, stepS, Option.bind, this.1]
         cases am.lookup k <;> rfl
@@ -320,17 +320,17 @@ theorem step_refines (hreg : RegOK reg) (ms : MSt) (gm : GoMapS) (h : RelO reg s
       | setNil => exact ⟨rfl, hr.2.1⟩
       | literal es =>
         refine ⟨rfl, ?_⟩
-        exact rel_makeMap hreg es [] s [] (rel_empty hr.2.1) hop
+        exact rel_makeMap hfs es [] s [] (rel_empty hr.2.1) hop
       | unhashable => exact ⟨rfl, hr⟩
 
 /-- every history -/
-theorem run_refines (hreg : RegOK reg) : ∀ (ops : List Op) (ms : MSt) (gm : GoMapS), RelO reg shape τ ms gm →
-    (∀ op ∈ ops, OpOK shape τ op) → run reg ms ops = runS gm ops
+theorem run_refines (hfs : ToStringOK fs) : ∀ (ops : List Op) (ms : MSt) (gm : GoMapS), RelO fs shape τ ms gm →
+    (∀ op ∈ ops, OpOK shape τ op) → run fs ms ops = runS gm ops
   | [], _, _, _, _ => rfl
   | op :: ops, ms, gm, h, hk => by
-    have st := step_refines hreg ms gm h op (hk op (by simp))
+    have st := step_refines hfs ms gm h op (hk op (by simp))
     simp only [run, runS, st.1]
-    rw [run_refines hreg ops _ _ st.2 (fun o ho => hk o (List.mem_cons_of_mem _ ho))]
+    rw [run_refines hfs ops _ _ st.2 (fun o ho => hk o (List.mem_cons_of_mem _ ho))]
 
 end
 
